@@ -89,7 +89,7 @@ func main() {
 			"musig.session.infinite_nonce_halves1": 10, "musig.session.infinite_nonce_halves2": 5, "musig.session.n1": 10, "musig.session.n8": 5})
 		family("musig.context", c.N(400, 16000), famMusigContext, req{"musig.ctx.session": 150, "musig.ctx.learn1": 10, "musig.ctx.learn2": 10,
 			"musig.ctx.coordinator": 20, "musig.ctx.tweakmode1": 20, "musig.ctx.tweakmode2": 20, "musig.ctx.tweakmode3": 20})
-		family("musig.keyagg", c.N(800, 32000), famMusigKeyAgg, req{"musig.keyagg.class.cancels-key": 10, "musig.keyagg.class.equals-n": 10,
+		family("musig.keyagg", c.N(800, 32000), famMusigKeyAgg, req{"musig.keyagg.class.cancels-key": 10, "musig.keyagg.class.cancels-key-mid-chain": 10, "musig.keyagg.class.equals-n": 10,
 			"musig.keyagg.class.plain": 100, "musig.keyagg.error": 30})
 		family("musig.nonceparse", c.N(1500, 60000), famMusigNonceParse, req{"musig.nonceparse": 300, "musig.nonceparse.class.valid": 50,
 			"musig.nonceparse.class.x-ge-p": 20, "musig.nonceparse.class.off-curve": 20, "musig.nonceparse.class.bad-prefix": 20})
